@@ -2,13 +2,20 @@
    dropped; a release answers everything the leader holds.  Proofs only; statements are repeated in
    Props/C15.v.  Requires only the model files and the inversion tactics of Node/LogFacts.v.
 
-   What [fresh] excludes (see the section "what is excluded, and why" at the end of this file for the
-   machine-checked counterexamples):
+   Layout: per-handler ledgers (the Led_ lemmas), the outer loop (transition_spec), the case analysis over the
+   events (step_fin), the theorems task_ledger / run_ledger / answered_at_most_once /
+   release_leaves_nothing_pending, a concrete history meeting every hypothesis (ex_history), and the
+   counterexamples that justify the hypotheses.
+
+   What [fresh] excludes (machine-checked counterexamples cex_... in the last section, for the first
+   three clauses):
+     - ELeader events on a node that is not leader ([enabled]): such a node does not take them;
      - ERestart of a node with pending tasks: the process died, its tasks died with it;
      - LWaitStable / LTransfer submitted with the reserved task id 0: the model reports such a task
        on some paths and not on others (ids are a modelling device, 0 is reserved for internal entries);
-     - LChangeConfig with a non-zero id whose configuration carries membership actions: see the end
-       of the file. *)
+     - LChangeConfig with a non-zero id whose configuration carries membership actions: the id can be
+       handed to do_change_config more than once (LedT counts k submissions); only the stable case
+       and the id 0 are covered (Led_on_change_config). *)
 From Coq Require Import List NArith ZArith Bool Lia Arith Permutation.
 From RecordUpdate Require Import RecordUpdate.
 From Verif Require Import Base.Bytes Codec.Messages Node.Types Node.Handlers Node.Leader Node.Snap Node.Step Node.Run
@@ -73,8 +80,19 @@ Definition admissible (s : nstate) (ev : nevent) : Prop :=
   | _ => True
   end.
 
+(* ELeader events are the cases of the leader's select loop: a node that is not leader does not take
+   them (the model makes them no-ops there), so a task handed over that way to a non-leader is not a
+   submission at all -- tasks reach a non-leader as ETask.  Without this clause the ledger is false:
+   ELeader (LClient [task 5]) on a follower changes nothing and answers nobody. *)
+Definition enabled (s : nstate) (ev : nevent) : Prop :=
+  match ev with
+  | ELeader _ => st_role s = Leader \/ submitted ev = []
+  | _ => True
+  end.
+
 Definition fresh (s : nstate) (ev : nevent) : Prop :=
-  NoDup (submitted ev) /\ (forall t, In t (submitted ev) -> ~ In t (pending s)) /\ admissible s ev.
+  NoDup (submitted ev) /\ (forall t, In t (submitted ev) -> ~ In t (pending s)) /\ admissible s ev /\
+  enabled s ev.
 
 (* ================================================================ counting *)
 Definition cn (t : N) (l : list N) : nat := count_occ N.eq_dec l t.
@@ -1077,4 +1095,333 @@ Proof.
   unfold Fin. split; [exact I2|]. split.
   - intros x. specialize (C x). rewrite !pending_K. cbn in *. lia.
   - unfold leader_pending. rewrite L, R. exact I1.
+Qed.
+
+(* ================================================================ the case analysis over the events *)
+Lemma fr_after_rpc s b : FR s (after_rpc s b).
+Proof. fr_solve. Qed.
+
+(* an RPC handler that is a frame, followed by the timer rule and the role change *)
+Lemma fin_rpc opt s s1 b code t last o s' :
+  ledger_ok s -> FR s s1 ->
+  finish opt (st_role s) code t last (after_rpc s1 b, no_out) = Done (o, s') ->
+  Fin s [] s' (rt (ob_out o)).
+Proof.
+  intros (_ & LP & I0) F H.
+  assert (F2 : FR s (after_rpc s1 b)) by (eapply FR_trans; [exact F | apply fr_after_rpc]).
+  eapply fin_finish; [exact I0 | apply TLed_frame; [exact F2 | reflexivity] | | exact H].
+  apply J_of_lk; [exact LP | apply F2].
+Qed.
+
+Lemma fin_frame opt s s1 code t last o s' :
+  ledger_ok s -> FR s s1 ->
+  finish opt (st_role s) code t last (s1, no_out) = Done (o, s') ->
+  Fin s [] s' (rt (ob_out o)).
+Proof.
+  intros (_ & LP & I0) F H.
+  eapply fin_finish; [exact I0 | apply TLed_frame; [exact F | reflexivity] | | exact H].
+  apply J_of_lk; [exact LP | apply F].
+Qed.
+
+Lemma fin_noop s s' :
+  ledger_ok s -> FR s s' -> st_role s' = st_role s -> Fin s [] s' (rt (ob_out no_obs)).
+Proof.
+  intros (_ & LP & I0) F R. change (rt (ob_out no_obs)) with (@nil N).
+  apply fin_same; [apply F | exact R | exact I0 | exact LP | apply TLed_of_FR; exact F].
+Qed.
+
+Lemma restart_tail (y : nstate) s1 :
+  (let s3 := set_ldr (set_cnd (set_flr (set_snapbusy (set_closed (set_leader (set_role y Follower) 0) false) false)
+                                false false) 0 false) None <| st_snapreq := None |> in
+   if 0 <? st_snapidx s3 then
+     Done (set_commit (set_fsm s3 (st_snapidx s3) (st_snapterm s3)) (st_snapidx s3))
+   else Done (set_commit (set_fsm s3 0 0) 0)) = Done s1 -> lk s1 = None /\ sk s1 = (false, None).
+Proof. cbv zeta. destruct (0 <? _); intros H; inversion H; subst; split; reflexivity. Qed.
+
+(* a restarted process holds no task *)
+Lemma restart_spec s keep s1 :
+  restart s keep = Done s1 -> lk s1 = None /\ sk s1 = (false, None).
+Proof.
+  unfold restart. intros H.
+  destruct (negb _); [discriminate|].
+  apply obind_inv in H. destruct H as (cc & _ & H).
+  eapply restart_tail. exact H.
+Qed.
+
+Lemma role_snapshot_run s s' : snapshot_run s = Done s' -> st_role s' = st_role s.
+Proof.
+  unfold snapshot_run. intros H.
+  destruct (st_snapreq s) as [rq|]; [|discriminate].
+  destruct (sr_done rq); inversion H; subst; try reflexivity.
+  destruct (_ <? _); reflexivity.
+Qed.
+
+Theorem step_fin opt s ev o s' :
+  model_event opt s ev = Done (o, s') -> ledger_ok s -> admissible s ev -> enabled s ev ->
+  Fin s (submitted ev) s' (rt (ob_out o)).
+Proof.
+  intros H LO AD EN. pose proof LO as (ND & LP & I0).
+  destruct ev; cbn [model_event submitted] in H |- *.
+  - (* EVoteReq *)
+    apply obind_inv in H. destruct H as ([code s1] & H1 & H).
+    apply fr_on_vote_request in H1. eapply fin_rpc; eauto.
+  - (* EAppendReq *)
+    apply obind_inv in H. destruct H as ([code s1] & H1 & H).
+    destruct (code =? unexpectedErr); [discriminate|].
+    apply fr_on_append_request in H1. eapply fin_rpc; eauto.
+  - (* ESnapReq *)
+    apply obind_inv in H. destruct H as ([code s1] & H1 & H).
+    apply fr_on_install_snap_request in H1. eapply fin_rpc; eauto.
+  - (* ETimeoutNowReq *)
+    pose proof (fr_on_timeout_now_request s) as F.
+    destruct (on_timeout_now_request s) as [code s1]. cbn [snd] in F.
+    eapply fin_rpc; eauto.
+  - (* ETimeout *)
+    apply obind_inv in H. destruct H as (s1 & H1 & H).
+    assert (F : FR s s1).
+    { destruct (st_role s =? Follower).
+      - inversion H1; subst. fr_solve.
+      - destruct (st_role s =? Candidate).
+        + apply fr_start_election in H1. eapply FR_trans; [|exact H1]. fr_solve.
+        + unfold leader_on_timeout in H1. apply fr_check_quorum in H1.
+          eapply FR_trans; [|exact H1]. fr_solve. }
+    eapply fin_frame; eauto.
+  - (* EVoteResult *)
+    destruct (st_role s =? Candidate).
+    + apply obind_inv in H. destruct H as (s1 & H1 & H).
+      apply fr_on_vote_result in H1. eapply fin_frame; eauto.
+    + inversion H; subst. apply fin_noop; [exact LO | apply FR_refl | reflexivity].
+  - (* EDisconnected *)
+    inversion H; subst. apply fin_noop; [exact LO | fr_solve | destruct (_ && _); reflexivity].
+  - (* ERestart *)
+    apply obind_inv in H. destruct H as (s1 & H1 & H). inversion H; subst. clear H.
+    apply restart_spec in H1. destruct H1 as [L S].
+    cbn [admissible] in AD.
+    change (rt (ob_out no_obs)) with (@nil N).
+    unfold Fin, leader_pending. rewrite !pending_K, <- pending_K, AD.
+    rewrite lk_follower_init, sk_follower_init, L, S.
+    split; [split; [exact I | intros _; reflexivity]|].
+    split; [intros t; reflexivity | intros _; reflexivity].
+  - (* ELeader *)
+    destruct (st_role s =? Leader) eqn:E.
+    + apply N.eqb_eq in E.
+      apply obind_inv in H. destruct H as ([s1 out1] & H1 & H).
+      apply Led_leader_event_out in H1; [|exact AD].
+      eapply fin_finish; [exact I0 | apply TLed_of_LedC; exact H1 | | exact H].
+      unfold J. rewrite E. intros C. exfalso. apply C. reflexivity.
+    + apply N.eqb_neq in E. inversion H; subst.
+      cbn [enabled] in EN. destruct EN as [EN|EN]; [contradiction|].
+      cbn [submitted] in EN. rewrite EN.
+      apply fin_noop; [exact LO | apply FR_refl | reflexivity].
+  - (* ETask *)
+    apply obind_inv in H. destruct H as ([s1 out1] & H1 & H).
+    apply node_task_spec in H1. destruct H1 as [L T]. cbn [fst] in L.
+    match type of H with finish _ _ _ _ _ (?x, _) = _ => set (s2 := x) in H end.
+    assert (F : FR s1 s2) by (subst s2; fr_solve).
+    eapply fin_finish; [exact I0 | | | exact H].
+    + unfold TLed in *. cbn [fst snd] in *. destruct F as [F1 F2]. rewrite F1, F2. exact T.
+    + apply J_of_lk; [exact LP|]. destruct F as [F1 _]. congruence.
+  - (* ESnapRun *)
+    apply obind_inv in H. destruct H as (s1 & H1 & H). inversion H; subst. clear H.
+    pose proof (role_snapshot_run _ _ H1) as R.
+    apply snapshot_run_spec in H1. destruct H1 as [L T].
+    change (rt (ob_out no_obs)) with (@nil N).
+    apply fin_same; assumption.
+  - (* ESnapTaken *)
+    apply obind_inv in H. destruct H as ([s1 out1] & H1 & H).
+    apply on_snapshot_taken_spec in H1. destruct H1 as [L T]. cbn [fst] in L.
+    eapply fin_finish; [exact I0 | exact T | | exact H].
+    apply J_of_lk; [exact LP | exact L].
+Qed.
+
+Theorem task_ledger :
+  forall opt s ev o s', model_event opt s ev = Done (o, s') ->
+    ledger_ok s -> fresh s ev ->
+    Permutation (pending s ++ submitted ev) (pending s' ++ map fst (lo_replies (ob_out o))) /\
+    ledger_ok s'.
+Proof.
+  intros opt s ev o s' H LO (NS & D & AD & EN).
+  apply conclude; try assumption.
+  exact (step_fin _ _ _ _ _ H LO AD EN).
+Qed.
+
+(* ================================================================ histories *)
+Definition trace := list (options * nevent * nobs).
+(* every task id the history submits / answers, in order *)
+Definition submitted_tr (tr : trace) : list N := flat_map (fun x => submitted (snd (fst x))) tr.
+Definition answered (tr : trace) : list N := flat_map (fun x => map fst (lo_replies (ob_out (snd x)))) tr.
+
+(* histories in which the callers behave: every event is fresh for the state it meets, and a task id
+   is used for one task only (an id submitted now is not submitted again later).  The second clause
+   is needed: [fresh] alone allows an id to be submitted again once it has been answered, and the
+   second answer would then, rightly, carry the same id. *)
+Inductive nrun_fresh : nstate -> trace -> nstate -> Prop :=
+| runf_nil s : nrun_fresh s [] s
+| runf_cons s opt ev o s1 tr s2 :
+    model_event opt s ev = Done (o, s1) -> fresh s ev ->
+    (forall t, In t (submitted ev) -> ~ In t (submitted_tr tr)) ->
+    nrun_fresh s1 tr s2 ->
+    nrun_fresh s ((opt, ev, o) :: tr) s2.
+
+Lemma nrun_fresh_nrun s tr s' : nrun_fresh s tr s' -> nrun s tr s'.
+Proof. induction 1; econstructor; eauto. Qed.
+
+(* the ledger of a history: what was pending at the start plus everything submitted is, as a multiset,
+   everything answered plus what is pending at the end *)
+Theorem run_ledger s tr s' :
+  nrun_fresh s tr s' -> ledger_ok s -> (forall t, In t (pending s) -> ~ In t (submitted_tr tr)) ->
+  Permutation (pending s ++ submitted_tr tr) (answered tr ++ pending s') /\
+  NoDup (submitted_tr tr) /\ ledger_ok s'.
+Proof.
+  induction 1 as [s | s opt ev o s1 tr s2 HS HF HD HR IH]; intros LO D.
+  - cbn. rewrite app_nil_r. split; [apply Permutation_refl|]. split; [constructor | exact LO].
+  - pose proof HF as (NS & DS & _).
+    destruct (task_ledger _ _ _ _ _ HS LO HF) as [P1 LO1].
+    assert (D1 : forall t, In t (pending s1) -> ~ In t (submitted_tr tr)).
+    { intros t I.
+      assert (I' : In t (pending s ++ submitted ev)).
+      { apply (Permutation_in t (Permutation_sym P1)). apply in_or_app. left. exact I. }
+      apply in_app_or in I'. destruct I' as [I'|I'].
+      - intros X. apply (D t I'). cbn [submitted_tr flat_map fst snd]. apply in_or_app. right. exact X.
+      - apply HD. exact I'. }
+    destruct (IH LO1 D1) as (P2 & N2 & LO2).
+    cbn [submitted_tr answered flat_map fst snd].
+    fold (submitted_tr tr). fold (answered tr).
+    split; [|split; [|exact LO2]].
+    + rewrite app_assoc.
+      eapply Permutation_trans; [apply Permutation_app_tail; exact P1|].
+      eapply Permutation_trans; [apply Permutation_app_tail; apply Permutation_app_comm|].
+      rewrite <- !app_assoc. apply Permutation_app_head. exact P2.
+    + apply NoDup_app_intro; [exact NS | exact N2|].
+      intros a I I'. exact (HD a I' I).
+Qed.
+
+Theorem answered_at_most_once :
+  forall s tr s', nrun_fresh s tr s' -> ledger_ok s -> pending s = [] ->
+    NoDup (answered tr ++ pending s').
+Proof.
+  intros s tr s' HR LO E.
+  destruct (run_ledger _ _ _ HR LO) as (P & ND & _).
+  { rewrite E. intros t []. }
+  rewrite E in P. cbn [app] in P.
+  eapply Permutation_NoDup; [exact P | exact ND].
+Qed.
+
+(* the same without assuming that the history starts with nothing pending *)
+Theorem answered_at_most_once_gen :
+  forall s tr s', nrun_fresh s tr s' -> ledger_ok s ->
+    (forall t, In t (pending s) -> ~ In t (submitted_tr tr)) ->
+    NoDup (answered tr ++ pending s').
+Proof.
+  intros s tr s' HR LO D.
+  destruct (run_ledger _ _ _ HR LO D) as (P & ND & _).
+  eapply Permutation_NoDup; [exact P|].
+  apply NoDup_app_intro; [apply LO | exact ND|].
+  intros a I I'. exact (D a I' I).
+Qed.
+
+(* ================================================================ release *)
+Theorem release_leaves_nothing_pending :
+  forall s s' out, leader_release_out s = (s', out) ->
+    leader_pending s' = [] /\
+    (st_closed s = true -> forall t r, In (t, r) (lo_replies out) -> r = RpServerClosed \/ r = RpNil).
+Proof.
+  intros s s' out H. split.
+  - apply release_spec in H. destruct H as (A & _). unfold leader_pending. rewrite (lk_none _ A). reflexivity.
+  - intros C t r I. unfold leader_release_out in H.
+    destruct (st_ldr s) as [l|]; [|inversion H; subst; destruct I].
+    assert (C1 : st_closed (if st_leader s =? st_nid s then set_leader s 0 else s) = true)
+      by (destruct (st_leader s =? st_nid s); exact C).
+    rewrite C1, C in H. inversion H; subst. clear H.
+    cbn [lo_replies] in I. apply in_app_or in I. destruct I as [I|I].
+    + destruct (transfer_in_progress l); [|destruct I].
+      destruct I as [I|[]]. inversion I; subst. destruct (_ <? _); auto.
+    + apply in_app_or in I. destruct I as [I|I]; apply in_map_iff in I; destruct I as (x & E & _);
+        inversion E; auto.
+Qed.
+
+(* ================================================================ the hypotheses are satisfiable *)
+(* a two-node cluster: node 1 is bootstrapped (task 3), wins the election, accepts a client batch
+   (tasks 5 and 6 and an internal entry), a transfer (9), a snapshot (7), a waitForStableConfig (8),
+   and is shut down while all of them are pending *)
+Fixpoint exec (opt : options) (s : nstate) (evs : list nevent) : option (trace * nstate) :=
+  match evs with
+  | [] => Some ([], s)
+  | ev :: r =>
+      match model_event opt s ev with
+      | Done (o, s1) =>
+          match exec opt s1 r with Some (tr, s2) => Some ((opt, ev, o) :: tr, s2) | None => None end
+      | Err _ => None
+      end
+  end.
+
+Definition ex_opt := mkOptions false false false 0 0 [].
+Definition ex_cfg := mkConfig [mkNode 1 [65] true [] 0; mkNode 2 [66] true [] 0] 0 0.
+Definition ex_events : list nevent :=
+  [ ETask (TChangeConfig 3 ex_cfg); EVoteResult 1 1; EVoteResult 1 1;
+    ELeader (LClient [mkNewReq entryUpdate [1] 5; mkNewReq entryRead [] 6; mkNewReq entryUpdate [2] 0]);
+    ELeader (LTransfer 9 0); ETask (TTakeSnapshot 7 0); ELeader (LWaitStable 8); ESnapRun;
+    ETask TShutdown; ESnapTaken ].
+Definition ex_run := Eval vm_compute in exec ex_opt (fresh_node 1 1) ex_events.
+Definition ex_trace : trace := match ex_run with Some (tr, _) => tr | None => [] end.
+Definition ex_end : nstate := match ex_run with Some (_, s) => s | None => fresh_node 1 1 end.
+
+Lemma ledger_ok_fresh_node cid nid : ledger_ok (fresh_node cid nid).
+Proof.
+  unfold ledger_ok. split; [constructor|]. split; [reflexivity|].
+  split; [exact I | intros _; reflexivity].
+Qed.
+
+Ltac ex_fresh :=
+  unfold fresh; split; [|split; [|split]]; vm_compute;
+  first [ exact I | solve [repeat constructor; cbn; intuition congruence] | solve [intuition congruence] ].
+
+Example ex_history : nrun_fresh (fresh_node 1 1) ex_trace ex_end.
+Proof.
+  unfold ex_trace, ex_end, ex_run.
+  repeat (eapply runf_cons; [vm_compute; reflexivity | ex_fresh | vm_compute; intuition congruence |]).
+  apply runf_nil.
+Qed.
+
+Example ex_answered : answered ex_trace = [3; 9; 5; 6; 8; 7] /\ pending ex_end = [] /\ st_closed ex_end = true.
+Proof. vm_compute. auto. Qed.
+
+(* ================================================================ what is excluded, and why *)
+(* the state of the example after its first n events: n = 3 a leader holding nothing, n = 4 a leader
+   holding tasks 5 and 6 *)
+Definition ex_after (n : nat) : nstate :=
+  match exec ex_opt (fresh_node 1 1) (firstn n ex_events) with Some (_, s) => s | None => fresh_node 1 1 end.
+
+Ltac ex_ledger_ok :=
+  unfold ledger_ok, Inv0; vm_compute;
+  repeat match goal with |- _ /\ _ => split end;
+  first [ exact I | solve [repeat constructor; cbn; intuition congruence] | solve [intuition congruence] ].
+
+Example ex_after_ok : ledger_ok (ex_after 3) /\ ledger_ok (ex_after 4).
+Proof. split; ex_ledger_ok. Qed.
+
+(* [enabled]: a leader event handed to a node that is not leader is not taken: nobody is answered,
+   nothing is recorded *)
+Example cex_not_leader :
+  let s := fresh_node 1 1 in
+  let ev := ELeader (LClient [mkNewReq entryUpdate [1] 5]) in
+  ledger_ok s /\ submitted ev = [5] /\ model_event ex_opt s ev = Done (no_obs, s).
+Proof. split; [apply ledger_ok_fresh_node|]. split; reflexivity. Qed.
+
+(* [admissible], ERestart: the tasks a process held die with it *)
+Example cex_restart :
+  let s := ex_after 4 in
+  exists o s', model_event ex_opt s (ERestart 4) = Done (o, s') /\
+    pending s = [5; 6] /\ pending s' = [] /\ lo_replies (ob_out o) = [].
+Proof. eexists. eexists. split; [vm_compute; reflexivity|]. vm_compute. auto. Qed.
+
+(* [admissible], LWaitStable 0: the reserved id enters the waitStable list (and a later release
+   reports it), which the ledger does not count as a task *)
+Example cex_wait_stable_0 :
+  let s := ex_after 3 in
+  exists o s', model_event ex_opt s (ELeader (LWaitStable 0)) = Done (o, s') /\
+    option_map ld_waitstable (st_ldr s') = Some [0] /\ ~ ledger_ok s'.
+Proof.
+  eexists. eexists. split; [vm_compute; reflexivity|]. split; [vm_compute; reflexivity|].
+  intros (_ & _ & Z & _). vm_compute in Z. apply Z. left. reflexivity.
 Qed.
